@@ -438,9 +438,9 @@ def truthy : Val → Bool
   | .nat n => n != 0
   | .list l => !l.isEmpty
 
-def noColor : Name := "no_color".toList
-def color : Name := "color".toList
-def command : Name := "command".toList
+def noColor : Name := ['n', 'o', '_', 'c', 'o', 'l', 'o', 'r']
+def color : Name := ['c', 'o', 'l', 'o', 'r']
+def command : Name := ['c', 'o', 'm', 'm', 'a', 'n', 'd']
 
 /-- `if args.no_color: args.color = False` / `del args.no_color` -/
 def post (ns : Ns) : Except Fail Ns :=
@@ -469,7 +469,7 @@ def dispatch (st : St) (argv : List (Option Name)) : Except Fail Ns :=
   | [] => .error (.exit 2)                     -- unreachable after `withDefault`: command required
   | Option.none :: _ => .error (.exit 2)       -- invalid choice: None
   | some a :: rest =>
-    if a = ['-', 'h'] ∨ a = "--help".toList then .error (.exit 0)
+    if a = ['-', 'h'] ∨ a = ['-', '-', 'h', 'e', 'l', 'p'] then .error (.exit 0)
     else match findParser (st.parsers.filter (fun q => !q.internal)) a with
       | Option.none => .error (.exit 2)        -- invalid choice
       | some q =>
